@@ -56,7 +56,65 @@ def load(crates, fresh=True):
         info['crates'][c] = {'functions': len(fs), 'unparsed_lines': len(errs)}
         funcs += fs
     prog = Program(funcs, scan_enums(crates))
+    prog.structs = scan_structs(crates)
     return prog, info
+
+
+STRUCT_RE = re.compile(r'\bstruct\s+([A-Za-z_][A-Za-z_0-9]*)\s*(?:<[^{(;]*>)?\s*(?:where[^{]*)?\{')
+
+
+def scan_structs(crates):
+    """struct name -> [field names in declaration order]; None when ambiguous. Also enum struct-variants as Enum::Variant."""
+    out = {}
+    for c in crates:
+        for path in glob.glob(os.path.join(REPO, c, 'src', '**', '*.rs'), recursive=True):
+            try:
+                src = strip_comments(open(path, encoding='utf-8').read())
+            except Exception:
+                continue
+            for m in STRUCT_RE.finditer(src):
+                name = m.group(1)
+                i = m.end()
+                depth = 1
+                j = i
+                while j < len(src) and depth:
+                    if src[j] == '{':
+                        depth += 1
+                    elif src[j] == '}':
+                        depth -= 1
+                    j += 1
+                fields = field_names(src[i:j - 1])
+                if name in out and out[name] != fields:
+                    out[name] = None
+                else:
+                    out[name] = fields
+    return out
+
+
+def field_names(body):
+    items = []
+    depth = 0
+    cur = ''
+    for ch in body:
+        if ch in '({[<':
+            depth += 1
+        elif ch in ')}]>':
+            depth -= 1
+        if ch == ',' and depth == 0:
+            items.append(cur)
+            cur = ''
+        else:
+            cur += ch
+    if cur.strip():
+        items.append(cur)
+    names = []
+    for it in items:
+        it = '\n'.join(l for l in it.split('\n') if not l.strip().startswith('#')).strip()
+        it = re.sub(r'#\s*\[[^\]]*\]', '', it, flags=re.S).strip()
+        m = re.match(r'(?:pub(?:\([^)]*\))?\s+)?([A-Za-z_][A-Za-z_0-9]*)\s*:', it)
+        if m:
+            names.append(m.group(1))
+    return names
 
 
 ENUM_RE = re.compile(r'\benum\s+([A-Za-z_][A-Za-z_0-9]*)\s*(?:<[^{]*>)?\s*(?:where[^{]*)?\{')
